@@ -254,6 +254,11 @@ pub fn explore(cfg: &SpaceCfg, threads: usize, obs: &dyn Observer) -> SpaceStats
                     if dump2 == dump {
                         continue;
                     }
+                    if !within_bounds(cfg, &dump2) {
+                        // beyond the namespace bound: checked as a successor, never stored or expanded
+                        cut_states.fetch_add(1, Ordering::Relaxed);
+                        continue;
+                    }
                     if !out.ok && order_sensitive(op) {
                         odc.fetch_add(1, Ordering::Relaxed);
                         continue;
